@@ -31,6 +31,11 @@ Inductive notif :=
 
 Definition hash_len (b : bytes) : bool := (length b =? 20)%nat.
 
+(** [Account.Parent] is Null (modelled as []) for ordinary accounts and the
+    20-byte owner for lock accounts. *)
+Definition is_lock (a : account) : bool := negb (length (parent a) =? 0)%nat.
+Global Arguments is_lock : simpl never.
+
 Definition get_acc (m : gmap bytes account) (k : bytes) : account :=
   default empty_acc (m !! k).
 
@@ -89,7 +94,9 @@ Definition epoch_visit (c : bctx) (e : Z) (st : outcome (gmap bytes account * li
   '(m, ns) <-! st;
   if negb (hash_len addr) then Halt (m, ns) else
   let acc := get_acc m addr in
-  if until acc =? 0 then Halt (m, ns) else
+  (* a lock account is one that has a parent (fix commit: [acc.Parent == nil] marks an
+     ordinary account; [Until] is only the expiry, so [until = 0] is an expiry in the past) *)
+  if negb (is_lock acc) then Halt (m, ns) else
   if e >=? until acc then
     '(m', _, ns') <-! transfer c m addr (parent acc) (bal acc) true (unlock_details e) false false;
     Halt (m', ns ++ ns')
